@@ -68,7 +68,7 @@ func cmdVerify(args []string) {
 				continue
 			}
 		}
-		if *prop != "" && !c.hasProp(*prop) {
+		if *prop != "" && !c.hasProp(*prop) && !contains(c.SafetyProps, *prop) {
 			continue
 		}
 		names = append(names, q)
